@@ -20,7 +20,7 @@ def gen_seq(rng, name, via, nops, mut_chance):
 class Check:
     prop = 'C13'
     theorems = ['C13_push_returns_own', 'C13_push_preserves', 'C13_pushes_preserve', 'C13_drops_exactly_once',
-                'C13_race_preserves_prefix', 'race_read_stable', 'C13_race_own_node', 'C13_race_failed_attempt']
+                'C13_race_preserves_prefix', 'race_read_stable', 'C13_race_own_node', 'C13_race_failed_attempt', 'C13_source_helper_cell_reused']
 
     def rule(self):
         return ("sequential: random sequences of make_ref / make_mut (three payload types, drop-tracking, serial numbers), "
